@@ -254,10 +254,11 @@ PROPS = {
             "correspondence runs only",
             "testing/synctest's fake clock fires time.AfterFunc timers in deadline order (the theorems allow any order)",
         ],
-        assumptions=["connection-level statements (a connection held by a caller is not closed by the pool) are checked by direct "
-                     "oracles for callers that only Put connections they hold (what poolConn does); the theorems are per entry, "
-                     "i.e. per Put, and hold for every caller",
-                     "a fake connection's Closed() channel stays closed once closed"],
+        assumptions=["the per-entry theorems (per Put) hold for every caller; the connection-level theorems "
+                     "(held_connection_out_of_reach, one_live_entry_per_connection, take_returns_unheld) are for callers that "
+                     "only Put connections they hold, which is what poolConn.Invoke/NewStream do (ghost State.proper); that the "
+                     "close counters of a held connection do not move is checked by direct oracles, not proved",
+                     "a connection's Closed() channel stays closed once closed"],
     ),
     "C02": dict(
         modules=['Drpc.Props.C02', 'Drpc.Tie.Manager'],
